@@ -96,6 +96,43 @@ impl VT for V3 {
     }
 }
 
+/// User-defined value whose in-memory size (4) differs from its serialized width (3).
+#[derive(Clone, Copy, Debug, PartialEq, Eq, Hash)]
+struct Tag {
+    kind: u8,
+    id: u16,
+}
+impl Serializable for Tag {
+    fn serialize_to_vec(&self, dst: &mut Vec<u8>) {
+        dst.push(self.kind);
+        dst.extend_from_slice(&self.id.to_le_bytes());
+    }
+    fn deserialize_from_slice(src: &[u8]) -> (Self, &[u8]) {
+        (Tag { kind: src[0], id: u16::from_le_bytes([src[1], src[2]]) }, &src[3..])
+    }
+    fn serialized_bytes() -> usize {
+        3
+    }
+}
+impl TryFrom<usize> for Tag {
+    type Error = ();
+    fn try_from(i: usize) -> Result<Self, ()> {
+        Ok(Tag { kind: (i % 251) as u8, id: (i % 65521) as u16 })
+    }
+}
+impl VT for Tag {
+    const NAME: &'static str = "user_tag";
+    fn cands() -> Vec<Self> {
+        vec![Tag { kind: 0, id: 0 }, Tag { kind: 0xff, id: 1 }, Tag { kind: 7, id: 0xfffe }]
+    }
+    fn same(a: &Self, b: &Self) -> bool {
+        a == b
+    }
+    fn show(&self) -> String {
+        format!("({}, {})", self.kind, self.id)
+    }
+}
+
 /// User-defined fixed-width value: 10 bytes (u64 + u16).
 #[derive(Clone, Copy, Debug, PartialEq, Eq, Hash)]
 struct V10(u64, u16);
@@ -303,8 +340,19 @@ fn round_trip<V: VT>(a: &TA<V>, variant: Variant, kind: Kind, pats: &[Vec<u8>], 
     for tail in tails {
         let mut src = bytes.clone();
         src.extend_from_slice(tail);
-        let (r, off, rest) = TA::<V>::deserialize(variant, &src);
+        let rt = std::panic::catch_unwind(std::panic::AssertUnwindSafe(|| TA::<V>::deserialize(variant, &src)));
         acc.count("round_trips", 1);
+        let (r, off, rest) = match rt {
+            Ok(x) => x,
+            Err(_) => {
+                let msg = util::take_last_panic().unwrap_or_default();
+                let mut c = case_json::<V>(variant, kind, pats, assign);
+                c.as_object_mut().unwrap().insert("tail".into(), json!(hex(tail)));
+                c.as_object_mut().unwrap().insert("check".into(), json!("roundtrip"));
+                acc.violate("C09", "types", format!("[{} {} {}] patterns {}: deserialize_unchecked panicked on the bytes produced by serialize: {msg}", V::NAME, variant.name(), kind.name(), e2::show_pats(pats)), c);
+                return None;
+            }
+        };
         let mut bad = None;
         if off != bytes.len() || rest != tail.len() {
             bad = Some(format!("deserialize consumed {off} of {} bytes, remainder {rest} (tail {})", bytes.len(), tail.len()));
@@ -370,7 +418,7 @@ macro_rules! typed_eq {
         }
     };
 }
-typed_eq!(u8, u16, u32, u64, u128, usize, i8, i16, i32, i64, i128, isize, V3, V10);
+typed_eq!(u8, u16, u32, u64, u128, usize, i8, i16, i32, i64, i128, isize, V3, V10, Tag);
 
 fn sweep_type<V: VT>(thorough: bool, which: &str) -> Acc {
     if thorough {
@@ -499,7 +547,7 @@ fn replay(path: &str) -> bool {
             $( if t == <$t as VT>::NAME { return replay_typed::<$t>(&case); } )*
         };
     }
-    dispatch!(u8, u16, u32, u64, u128, usize, i8, i16, i32, i64, i128, isize, Empty, V3, V10);
+    dispatch!(u8, u16, u32, u64, u128, usize, i8, i16, i32, i64, i128, isize, Empty, V3, V10, Tag);
     eprintln!("unknown value type {t}");
     std::process::exit(2);
 }
@@ -552,11 +600,23 @@ fn main() {
     let thorough = args.get(3).map(String::as_str) == Some("thorough");
     let mut acc = Acc::new();
     macro_rules! all {
-        ($($t:ty),*) => { $( if !util::stopped() { acc.merge(sweep_type::<$t>(thorough, &which)); } )* };
+        ($($t:ty),*) => { $( if !util::stopped() {
+            // a panic of the library outside the guarded calls must not lose the summary
+            match std::panic::catch_unwind(std::panic::AssertUnwindSafe(|| sweep_type::<$t>(thorough, &which))) {
+                Ok(a) => acc.merge(a),
+                Err(_) => {
+                    let msg = util::take_last_panic().unwrap_or_default();
+                    acc.violate(&which, "types", format!("library code panicked during the {} sweep: {msg}", <$t as VT>::NAME), json!({"value_type": <$t as VT>::NAME, "check": "roundtrip", "variant": "bytewise", "kind": "standard", "patterns": ["61"], "assignment": [0]}));
+                }
+            }
+        } )* };
     }
-    all!(u8, u16, u32, u64, u128, usize, i8, i16, i32, i64, i128, isize, Empty, V3, V10);
+    all!(u8, u16, u32, u64, u128, usize, i8, i16, i32, i64, i128, isize, Empty, V3, V10, Tag);
     if which == "C09" {
-        typed_eq_check(&mut acc);
+        if std::panic::catch_unwind(std::panic::AssertUnwindSafe(|| typed_eq_check(&mut acc))).is_err() {
+            let msg = util::take_last_panic().unwrap_or_default();
+            acc.violate("C09", "types", format!("library code panicked during the round trip of a typed automaton: {msg}"), json!({"value_type": "user10", "check": "roundtrip", "variant": "bytewise", "kind": "standard", "patterns": ["6162", "62"], "assignment": [0, 1]}));
+        }
     } else {
         index_boundary(&mut acc);
     }
